@@ -21,6 +21,7 @@ import (
 	"net"
 	"reflect"
 	"slices"
+	"sync"
 
 	"github.com/google/cel-go/cel"
 	"github.com/google/cel-go/common/operators"
@@ -137,7 +138,11 @@ func (networksLib) ProgramOptions() []cel.ProgramOption {
 }
 
 func (networksLib) CompileOptions() []cel.EnvOption {
-	var networkInstances []IPNetworks
+	// the functions below run while requests are evaluated, i.e. concurrently
+	var (
+		networkInstances []IPNetworks
+		mut              sync.Mutex
+	)
 
 	return []cel.EnvOption{
 		// IPNetworks specific functions
@@ -146,6 +151,9 @@ func (networksLib) CompileOptions() []cel.EnvOption {
 				[]*cel.Type{cel.StringType}, ipNetworksType,
 				cel.UnaryBinding(func(netVal ref.Val) ref.Val {
 					addresses := []string{netVal.Value().(string)} // nolint: forcetypeassert
+
+					mut.Lock()
+					defer mut.Unlock()
 
 					for _, net := range networkInstances {
 						if slices.Equal(net.cidrs, addresses) {
@@ -173,6 +181,9 @@ func (networksLib) CompileOptions() []cel.EnvOption {
 
 					addresses := cidrs.([]string) // nolint: forcetypeassert
 					slices.Sort(addresses)
+
+					mut.Lock()
+					defer mut.Unlock()
 
 					for _, net := range networkInstances {
 						if slices.Equal(net.cidrs, addresses) {
